@@ -60,6 +60,12 @@ func (tree *ParserT) parseString(qStart, qEnd rune, exec bool) ([]rune, error) {
 			value = append(value, r)
 			tree.crLf()
 
+		case r == '\\' && qStart == '"' && tree.charPos+1 < len(tree.expression):
+			// an escaped character inside double quotes (eg \") does not end the
+			// string; keep the pair verbatim for parseStringInfix to process
+			value = append(value, r, tree.expression[tree.charPos+1])
+			tree.charPos++
+
 		case r == qEnd:
 			// end quote
 			goto endString
